@@ -42,10 +42,7 @@ def Bound.sup (a b : Bound) : Bound :=
     burst := if a.burst < b.burst then b.burst else a.burst }
 
 /-- the schema's configured global limit (absent members as in `boundByGlobalLimit`) -/
-def globalOf (s : Schema) : Bound :=
-  { mi := match s.gmi with | some g => g | none => maxInt32
-    qps := match s.gtb with | some g => g.qps | none => maxInt32
-    burst := match s.gtb with | some g => g.burst | none => maxInt32 }
+def globalOf (s : Schema) : Bound := { mi := s.globalMax, qps := s.globalQps, burst := s.globalBurst }
 
 /-- the limiter that enforces exactly the schema's local limit -/
 def limOf (s : Schema) : Lim :=
@@ -93,15 +90,13 @@ def failRunStart : List (Bool × Int) → Option Int
     | none => some t
 
 /-- ready after a heartbeat history (latest first): up on a success; after a failure, still up iff it was up and
-    the current run of failures started at most `ServerHeartBeatTimeout` ago -/
+    the current run of failures (which starts now if the previous heartbeat was a success) started at most
+    `ServerHeartBeatTimeout` ago -/
 def specReady : List (Bool × Int) → Bool
   | [] => false
   | (true, _) :: _ => true
   | (false, now) :: rest =>
-    specReady rest &&
-    match failRunStart ((false, now) :: rest) with
-    | some t0 => !decide (now > t0 + serverHeartBeatTimeout)
-    | none => true
+    specReady rest && !decide (now > (failRunStart rest).getD now + serverHeartBeatTimeout)
 
 /-! ## the monitor -/
 
@@ -165,39 +160,47 @@ def clampAccept (limit reserve wmax : Int) : Int :=
   let l := if limit < reserve then reserve else limit
   if l > wmax then wmax else l
 
-/-- judgements about one `SetLimit` from the previous observation `p` to `o` -/
+/-- judgements about one `SetLimit` on a max-in-flight count wrapper: its fields before, the reply, its limiter after -/
+def judgeMISet (lastAcq wreserve wmax : Int) (punavail : Bool) (prlim : Option Lim) (localMi : Option Int)
+    (obsMax : Int) (r : Reply) (orlim : Option Lim) (ounavail : Bool) : List String :=
+  let fresh := !(decide (r.rt > 0) && decide (r.rt ≤ lastAcq))
+  if fresh && r.err == .none && r.accept then
+    (if ounavail = false ∧ orlim = some (.mi (clampAccept r.limit wreserve wmax)) then [] else ["c09.recover-not-applied"])
+  else if fresh && r.err == .other && !punavail then
+    match localMi with
+    | some l => if ounavail = true ∧ orlim = some (.mi (miFallback obsMax l wmax)) then [] else ["c09.error-fallback"]
+    | none => []
+  else if !fresh || r.err == .tooOld || (r.err == .other && punavail) then
+    (if orlim = prlim ∧ ounavail = punavail then [] else ["c09.stale-reply-applied"])
+  else []
+
+/-- the same for a token-bucket count wrapper -/
+def judgeTBSet (wqps wburst : Int) (punavail : Bool) (prlim : Option Lim) (localTb : Option TB) (mt : Meter)
+    (r : Reply) (orlim : Option Lim) (ounavail : Bool) : List String :=
+  if r.err == .other && !punavail then
+    match localTb with
+    | some lt =>
+      let q := tbFallbackQps mt lt.qps wqps
+      let b := if q > wburst then wburst else q
+      if ounavail = true ∧ orlim = some (.tb q b) then [] else ["c09.error-fallback"]
+    | none => []
+  else if r.err == .none && r.accept && punavail then
+    (if ounavail = false ∧ orlim = some (.tb wqps wburst) then [] else ["c09.recover-not-applied"])
+  else
+    (if orlim = prlim then [] else ["c09.stale-reply-applied"])
+
+/-- judgements about one `SetLimit` from the previous observation `m.prev` to `o` -/
 def judgeSetLimit (m : Mon) (r : Reply) (o : Obs) : List String :=
   let p := m.prev
   if p.wkind = 2 then
-    let fresh := !(decide (r.rt > 0) && decide (r.rt ≤ p.lastAcq))
-    if fresh && r.err == .none && r.accept then
-      (if o.unavail = false ∧ o.rlim = some (.mi (clampAccept r.limit p.wreserve p.wmax)) then [] else ["c09.recover-not-applied"])
-    else if fresh && r.err == .other && !p.unavail then
-      match m.schema.bind (·.mi) with
-      | some l => if o.unavail = true ∧ o.rlim = some (.mi (miFallback m.meter.maxInflight l p.wmax)) then [] else ["c09.error-fallback"]
-      | none => []
-    else if !fresh || r.err == .tooOld || (r.err == .other && p.unavail) then
-      (if o.rlim = p.rlim ∧ o.unavail = p.unavail then [] else ["c09.stale-reply-applied"])
-    else []
+    judgeMISet p.lastAcq p.wreserve p.wmax p.unavail p.rlim (m.schema.bind (·.mi)) m.meter.maxInflight r o.rlim o.unavail
   else if p.wkind = 3 then
-    if r.err == .other && !p.unavail then
-      match m.schema.bind (·.tb) with
-      | some lt =>
-        let q := tbFallbackQps m.meter lt.qps p.wqps
-        let b := if q > p.wburst then p.wburst else q
-        if o.unavail = true ∧ o.rlim = some (.tb q b) then [] else ["c09.error-fallback"]
-      | none => []
-    else if r.err == .none && r.accept && p.unavail then
-      (if o.unavail = false ∧ o.rlim = some (.tb p.wqps p.wburst) then [] else ["c09.recover-not-applied"])
-    else
-      (if o.rlim = p.rlim then [] else ["c09.stale-reply-applied"])
+    judgeTBSet p.wqps p.wburst p.unavail p.rlim (m.schema.bind (·.tb)) m.meter r o.rlim o.unavail
   else []
 
-/-- the clauses broken by observation `o` made after `op`; `m'` is `m.next op o` -/
-def judgeStep (cfg : Cfg) (m : Mon) (op : Op) (o : Obs) : List String :=
-  let m' := m.next op o
-  let ready' := decide (m'.shards ≠ 0) && specReady m'.hist
-  (if o.ready = ready' then [] else ["c09.ready-hysteresis"]) ++
+/-- clauses about the state reached: `m'` is the monitor after the operation, `o` the observation made then -/
+def judgePost (cfg : Cfg) (m' : Mon) (o : Obs) : List String :=
+  (if o.ready = (decide (m'.shards ≠ 0) && specReady m'.hist) then [] else ["c09.ready-hysteresis"]) ++
   (if o.choice = expectedChoice cfg m' then [] else ["c09.fallback-choice"]) ++
   (match m'.schema with
    | none => []
@@ -208,16 +211,23 @@ def judgeStep (cfg : Cfg) (m : Mon) (op : Op) (o : Obs) : List String :=
       | none => if m'.synced then ["c09.remote-limiter-missing"] else []
       | some l =>
         if l.kind ≠ guessType s then ["c09.answer-type-mismatch"]
-        else if Lim.leb l m'.ob then [] else ["c09.cap-exceeds-global"])) ++
-  (match op with
-   | .answer true item =>
-     if effective m op && decide (o.wkind = 1) then
-       match m.schema with
-       | some s => if o.rlim = some (limOfItem (boundByGlobalLimit s item)) then [] else ["c09.quota-not-applied"]
-       | none => []
-     else []
-   | .setLimit r => judgeSetLimit m r o
-   | _ => [])
+        else if Lim.leb l m'.ob then [] else ["c09.cap-exceeds-global"]))
+
+/-- clauses about the transition made by `op` from the monitor `m` (before) to the observation `o` (after) -/
+def judgeTrans (m : Mon) (op : Op) (o : Obs) : List String :=
+  match op with
+  | .answer true item =>
+    if effective m op && decide (o.wkind = 1) then
+      match m.schema with
+      | some s => if o.rlim = some (limOfItem (boundByGlobalLimit s item)) then [] else ["c09.quota-not-applied"]
+      | none => []
+    else []
+  | .setLimit r => judgeSetLimit m r o
+  | _ => []
+
+/-- the clauses broken by observation `o` made after `op` -/
+def judgeStep (cfg : Cfg) (m : Mon) (op : Op) (o : Obs) : List String :=
+  judgePost cfg (m.next op o) o ++ judgeTrans m op o
 
 /-- per step: the broken clauses -/
 def judgeFrom (cfg : Cfg) (m : Mon) : List Op → List Obs → List (List String)
